@@ -171,13 +171,21 @@ func (e *Explore) Run(ctx context.Context, con int) error {
 					}
 					tar := temp
 					hash := tar.target.Hash
+					// the target may have left discovery (or have been discovered again as a
+					// new target) while it was queued: only the current one is probed
+					e.targetsLock.Lock()
+					current := e.targets[hash] == tar
+					e.targetsLock.Unlock()
+					if !current {
+						continue
+					}
 					err := e.exploreOnce(ctx, tar)
 					if err != nil {
 						go func() {
 							time.Sleep(e.retryInterval)
 							e.targetsLock.Lock()
 							defer e.targetsLock.Unlock()
-							if e.targets[hash] != nil {
+							if e.targets[hash] == tar {
 								e.needExplore <- tar
 							}
 						}()
